@@ -5,6 +5,7 @@ import Balm.Impl.Asp
 import Balm.DepthAlgo
 import Balm.Impl.CandModel
 import Balm.Impl.SkipExcl
+import Balm.TransNet
 /-!
 # `balmdriver` – line protocol between the Python harness and the Lean model
 
@@ -71,6 +72,7 @@ structure Session where
   ctx : Ctx n
   diag : Diag n
   atts : Option (List (List (State n)))
+  exprs : Vector BExpr n
 
 def showOutcome : Outcome → String
   | .ok true => "true"
@@ -262,6 +264,13 @@ def handle (S : Session) (toks : List String) : Session × String :=
   | ["CONSTFN"] => (S, String.intercalate " " (((List.finRange n).filter (isConstFn N)).map fun i => toString i.val))
   | ["TT"] => (S, String.intercalate " " ((List.finRange n).map fun i =>
       String.mk ((allStates n).map fun s => if N.f i s then '1' else '0')))
+  | ["FLIPTT", mask] =>
+    -- truth tables of the syntactically re-encoded network `flipExprs` (C17, `ofExprs_flipExprs`)
+    if mask.length != n then bad else
+    let m : Vector Bool n := Vector.ofFn fun i => mask.toList.getD i.val '0' == '1'
+    let N' := Net.ofExprs (flipExprs S.exprs m)
+    (S, String.intercalate " " ((List.finRange n).map fun i =>
+      String.mk ((allStates n).map fun s => if N'.f i s then '1' else '0')))
   | ["STATES"] => (S, String.intercalate " " ((allStates n).map showState))
   | "SOLVE" :: pr :: rev :: ens :: srcs :: avoid =>
     match parseSpace n ens, parseSpaces n avoid with
@@ -390,13 +399,13 @@ def mkSession (n : Nat) (fns : List BExpr) : Option Session :=
     let es : Vector BExpr n := ⟨fns.toArray, by simpa using h⟩
     let N := Net.ofExprs es
     let ctx := Ctx.mk' N 100000
-    some { n := n, ctx := ctx, diag := initDiag ctx, atts := none }
+    some { n := n, ctx := ctx, diag := initDiag ctx, atts := none, exprs := es }
   else none
 
 def emptySession : Session :=
   let N : Net 0 := Net.ofExprs #v[]
   let ctx := Ctx.mk' N 100000
-  { n := 0, ctx := ctx, diag := initDiag ctx, atts := none }
+  { n := 0, ctx := ctx, diag := initDiag ctx, atts := none, exprs := #v[] }
 
 partial def loop (h : IO.FS.Stream) (out : IO.FS.Stream) (S : Session) : IO Unit := do
   let line ← h.getLine
